@@ -62,7 +62,7 @@ func (c11) Gen(r *core.Rng, tier string, idx int) *core.Trace {
 	t := &core.Trace{Cfg: map[string]int64{}, CfgS: map[string]string{}}
 	t.CfgS["kind"] = fsKinds[idx%len(fsKinds)]
 	t.Cfg["attach"] = int64(r.PickW(35, 30, 10, 10, 15)) // 0 Writable fails, 1 file.New ro, 2 OpenFromPath ro, 3 diskfs.Open ro, 4 rw (reads only)
-	t.Cfg["layout"] = int64(r.PickW(60, 20, 20))          // 0 whole device, 1 gpt partition, 2 mbr partition
+	t.Cfg["layout"] = int64(r.PickW(60, 20, 20))         // 0 whole device, 1 gpt partition, 2 mbr partition
 	t.Cfg["sqcomp"] = int64(r.Intn(4))
 	n := 3 + r.Intn(25)
 	for i := 0; i < n; i++ {
